@@ -490,12 +490,26 @@ impl Prop for ServerProp {
 
     fn run(&self, world: &World, want_sample: bool) -> Verdict {
         let id = self.id();
+        crate::server_world::set_call_spelling(0);
         let mut sc = gen_scenario(self.kind, &mut world.borrow_mut());
         if sc.mode == "NOTIFIED" {
             return crate::props::c10n::run(world);
         }
         if sc.mode == "REAL-SMOL" {
             return crate::props::c18b::run(world);
+        }
+        // How the scripted clients spell their calls (member order, blanks, explicit `false` flags,
+        // unknown members, padding) is a per-run draw; 0 = serde_json's compact output.
+        {
+            let mut w = world.borrow_mut();
+            let mask = match w.tape.draw(3) {
+                0 | 1 => 0,
+                _ => 1 + w.tape.draw(31) as u32,
+            };
+            crate::server_world::set_call_spelling(mask);
+            if mask != 0 {
+                w.stat("worlds_with_calls_spelled_unusually");
+            }
         }
         let needs_limit = sc.clients.iter().any(|c| c.faults.iter().any(|f| matches!(f, Fault::Oversize { .. })));
         // The lowered limit must stay far above every legitimate burst in this world: the reader
